@@ -34,3 +34,11 @@ chk("C05", "seq+crash", "explicit-state BFS over multi-round histories; per save
     "All round histories within the bounds incl. delete-then-recreate of identical content within and across rounds: no node recorded dead in round r is reachable from the root of any round >= r (independent walk over decoded device content); for every prune version and every prefix of the prune's write stream the roots at versions >= v stay fully readable, removed keys were recorded dead below v, re-running the prune after a crash converges.",
     "Same crash model and stand-in as C04; bounds 2-4 rounds, 3-5 paths; whether dead-node records below v are removed and PruneStats are not judged (not stated by the property).",
     "DESIGN.md section 4 C05")
+chk("C09", "seq", "explicit-state BFS over update/delete/commit/GC/reload/Root histories of the real weighted trie vs sorted-list model with independent root computation, dedup on dumped private structure",
+    "All histories within the bounds over six 32-byte keys sharing 63/3/2/1/0 nibbles: after every operation Weight() = sum of live weights, Root() = independent hash computation from the live set, and for EVERY block number GetBlockProof names the cumulative-weight owner and the proof verifies; commits at collapse levels 0..3 and 64, DeleteNodes, reload and Root() reads are interleaved everywhere.",
+    "Bounds: 3-6 keys, 2 values per key (weights 1 and 3), depth 4-6 quick / 6-9 thorough; values embed the key index (no two keys store equal values; the shared-value regime is C11's known finding).",
+    "DESIGN.md section 4 C09")
+chk("C11", "seq+crash", "explicit-state BFS with recovery oracle after every commit/GC and exhaustive crash-prefix enumeration of the storage write log",
+    "All histories within the bounds: after every batch commit and every DeleteNodes a trie reopened from just (root hash, weight) equals the model (weight, owner, value, verifying proof for every block); every prefix of the storage log inside the last operation leaves the last durably committed root recoverable. Failures matching the open finding C11-gc-ahead-of-commit are reported as KNOWN-FINDING and their branches cut.",
+    "Crash model = prefix of the write log with atomic batches; Pebble replaced by an in-memory adapter; bounds 3-5 keys, depth 6 quick / 8-9 thorough.",
+    "DESIGN.md section 4 C11")
